@@ -43,6 +43,13 @@ KINDS = {
     "overflow-bigint-add": ([("decl", "bb", "bigint", ("lit", "bigint", BIGMAX), ())], ("decl", "v", None, ("bin", "+", V("bb"), V("a")), ())),
     "overflow-byte-add": ([("decl", "by", "byte", ("lit", "byte", 255), ())], ("decl", "v", None, ("bin", "+", V("by"), V("by")), ())),
     "overflow-neg": ([("decl", "mn", None, ("bin", "-", ("bin", "-", I(0), I(2147483647)), V("a")), ())], ("decl", "v", None, ("neg", V("mn")), ())),
+    "overflow-div-min": ([("decl", "mn", None, ("bin", "-", ("bin", "-", I(0), I(2147483647)), V("a")), ())], ("decl", "v", None, ("bin", "/", V("mn"), ("bin", "-", I(0), V("a"))), ())),
+    "overflow-rem-min": ([("decl", "mn", None, ("bin", "-", ("bin", "-", I(0), I(2147483647)), V("a")), ())], ("decl", "v", None, ("bin", "%", V("mn"), ("bin", "-", I(0), V("a"))), ())),
+    "overflow-abs-min": ([("decl", "mn", None, ("bin", "-", ("bin", "-", I(0), I(2147483647)), V("a")), ())], ("decl", "v", None, ("mcall", V("mn"), "abs", []), ())),
+    "overflow-opassign": ([("decl", "big", None, I(2147483647), ())], ("opassign", V("big"), "+=", V("a"))),
+    "overflow-bigint-mul": ([("decl", "bb", "bigint", ("lit", "bigint", BIGMAX), ())], ("decl", "v", None, ("bin", "*", V("bb"), ("bin", "+", V("a"), V("a"))), ())),
+    "str-delete-inside-char": ([("decl", "s", None, S("h\u00e9llo"), ())], ("decl", "v", None, ("mcall", V("s"), "delete", [I(0), ("bin", "+", V("a"), I(1))]), ())),
+    "str-split-inside-char": ([("decl", "s", None, S("h\u00e9llo"), ())], ("print", ("mcall", V("s"), "split", [("bin", "+", V("a"), I(1))]))),
     "shift-amount": ([], ("decl", "v", None, ("bin", "<<", V("a"), ("bin", "+", V("a"), I(40))), ())),
     "str-substring-range": ([("decl", "s", None, S("abc"), ())], ("decl", "v", None, ("mcall", V("s"), "substring", [I(1), ("bin", "+", V("a"), I(8))]), ())),
     "str-insert-range": ([("decl", "s", None, S("abc"), ())], ("decl", "v", None, ("mcall", V("s"), "insert", [S("x"), ("bin", "+", V("a"), I(8))]), ())),
